@@ -499,7 +499,9 @@ func init() {
 		reg(name, func(m *machine, fr *frame, fn *ssa.Function, a []value) (value, bool) {
 			x, ok := a[0].(float64)
 			if !ok {
-				panic(unsupported(name + " on symbolic float"))
+				// §2.9(c): a math function of a symbolic float is an unconstrained float
+				m.havocs++
+				return &sym{t: m.fresh("fhavoc", 64)}, true
 			}
 			return f(x), true
 		})
@@ -519,7 +521,8 @@ func init() {
 		x, ok1 := a[0].(float64)
 		y, ok2 := a[1].(float64)
 		if !ok1 || !ok2 {
-			panic(unsupported("math.Pow on symbolic float"))
+			m.havocs++
+			return &sym{t: m.fresh("fhavoc", 64)}, true
 		}
 		return math.Pow(x, y), true
 	})
